@@ -1,8 +1,65 @@
-import SLModel.Drv.Util
+import SLModel.Drv.Doc
+import SLModel.Drv.C04
+import SLModel.Core.HttpWrites
 open Lean
 namespace SL.Drv.C23
+open SL.Drv SL.Drv.DocJ SL.Doc SL.Contents SL.HttpWrites
 
-/-- stub: no model operations for C23 yet -/
-def handle (_req : Json) : Except String Json := .error "C23: not implemented"
+abbrev D := J String
+
+def reqOf (j : Json) : Except String (Req String D) := do
+  let kind ← getStr j "kind"
+  match kind with
+  | "add" => return .add ((getArrD j "docs").toList.map toJ)
+  | "bulk" => return .bulk ((getArrD j "docs").toList.map toJ)
+  | "delete" => return .delete (← (getArrD j "ids").toList.mapM (·.getStr?))
+  | "malformed" => return .malformed
+  | "commit" => return .commit
+  | "refresh" => return .refresh
+  | "compact" => return .compact
+  | "search" => return .search
+  | _ => throw s!"C23: unknown request kind {kind}"
+
+def respJson : Resp → Json
+  | .queued n => Json.mkObj [("class", "queued"), ("n", n)]
+  | .rejected => Json.mkObj [("class", "rejected")]
+  | .done => Json.mkObj [("class", "done")]
+  | .serverError => Json.mkObj [("class", "server_error")]
+
+def stepJson (ru : Rules String D) (r : Req String D) (p : Resp × St String D) : Json :=
+  Json.mkObj [
+    ("resp", respJson p.1),
+    ("pending", Json.arr (p.2.log.pending.map C04.opJson).toArray),
+    ("contents", C04.contentsJson (abs p.2.segs)),
+    ("segments", (p.2.segs.length : Nat)),
+    ("handles", (p.2.handles.length : Nat)),
+    ("acked", Json.arr ((ackedOps ru r).map C04.opJson).toArray),
+    ("rolls_back", rollsBack ru r)]
+
+/-- `{"op":"run","repaired":b,"schema":…,"reqs":[…]}` → `{"steps":[…]}`: response class, pending
+operations of the log, contents a reader sees — after every request, from `mechTrace`
+(= `mechServe` = `denote` + `mechStep`, the definitions `Props/C23` is about);
+`{"op":"accepts","schema":…,"doc":…}` / `{"op":"id_ok","id":…}`: the library's decisions. -/
+def handle (req : Json) : Except String Json := do
+  let op ← getStr req "op"
+  match op with
+  | "run" =>
+    let s := schemaOf (← req.getObjVal? "schema")
+    let repaired := getBoolD req "repaired" false
+    let reqs ← (getArrD req "reqs").toList.mapM reqOf
+    let ru := jsonRules s
+    let tr := mechTrace repaired ru (C04.cfgOf s) (init false) reqs
+    let fl := flatRun repaired ru (project s) reqs
+    return Json.mkObj [
+      ("steps", Json.arr ((reqs.zip tr).map (fun p => stepJson ru p.1 p.2)).toArray),
+      ("flat_pending", Json.arr (fl.pending.map C04.opJson).toArray),
+      ("flat_contents", C04.contentsJson fl.committed)]
+  | "accepts" =>
+    let s := schemaOf (← req.getObjVal? "schema")
+    let d := toJ (← req.getObjVal? "doc")
+    return Json.mkObj [("id", match addId s d with | some i => (i : Json) | none => Json.null)]
+  | "id_ok" =>
+    return Json.mkObj [("ok", deleteIdOk (← getStr req "id"))]
+  | _ => throw s!"C23: unknown op {op}"
 
 end SL.Drv.C23
